@@ -395,6 +395,33 @@ pub fn rand_dest(rng: &mut Rng, used: &mut Vec<String>) -> String {
     }
 }
 
+/// files with the names real packages are made of (byte-code next to its source, a shared object and its debug
+/// file, compressed manual pages, desktop and unit files, licence and readme texts): code that special-cases a name
+/// has something to special-case
+pub fn realistic_files(rng: &mut Rng, used: &mut Vec<String>, which: Option<usize>) -> Vec<FileCfg> {
+    let sets: [&[&str]; 5] = [
+        &["/usr/lib/python3.11/site-packages/mod/__init__.py", "/usr/lib/python3.11/site-packages/mod/__pycache__/__init__.cpython-311.pyc",
+          "/usr/lib/python3.11/site-packages/mod/util.py", "/usr/lib/python3.11/site-packages/mod/__pycache__/util.cpython-311.opt-1.pyc"],
+        &["/usr/lib64/libverif.so.1.2.3", "/usr/lib/debug/usr/lib64/libverif.so.1.2.3.debug", "/usr/lib/.build-id/ab/cdef0123456789", "/usr/lib64/libverif.a", "/usr/lib64/libverif.la"],
+        &["/usr/share/man/man1/verif.1.gz", "/usr/share/man/man5/verif.conf.5.bz2", "/usr/share/info/verif.info.gz", "/usr/share/doc/verif/README.md", "/usr/share/licenses/verif/LICENSE"],
+        &["/usr/share/applications/verif.desktop", "/usr/lib/systemd/system/verif.service", "/etc/verif/verif.conf", "/etc/verif/verif.conf.rpmnew", "/usr/share/java/verif.jar"],
+        &["/usr/bin/verif", "/usr/bin/verif.sh", "/usr/share/verif/data.tar.gz", "/usr/share/verif/image.png", "/usr/share/verif/.hidden", "/usr/share/verif/core"],
+    ];
+    let set = sets[which.unwrap_or_else(|| rng.below(sets.len() as u64) as usize) % sets.len()];
+    let mut out = vec![];
+    for name in set {
+        if used.iter().any(|u| u == name || u.starts_with(&format!("{name}/")) || name.starts_with(&format!("{u}/"))) { continue; }
+        used.push(name.to_string());
+        let mut f = rand_file(rng, used, 300);
+        f.dest = name.to_string();
+        f.mode = Some(0o100644);
+        f.mode_wide = None;
+        f.link = None;
+        out.push(f);
+    }
+    out
+}
+
 pub fn rand_file(rng: &mut Rng, used: &mut Vec<String>, max_len: usize) -> FileCfg {
     let len = match rng.below(8) {
         // (sizes around the buffer sizes I/O code likes: 8 KiB, 64 KiB, 128 KiB)
@@ -554,6 +581,10 @@ pub fn rand_cfg(rng: &mut Rng, max_files: u64, max_len: usize) -> Cfg {
             f.dest = twin;
             cfg.files.push(f);
         }
+    }
+    if max_files > 0 && rng.chance(1, 6) {
+        let fs = realistic_files(rng, &mut used, None);
+        cfg.files.extend(fs);
     }
     // a packaged file that bears the name of the archive's end marker
     if max_files > 0 && rng.chance(1, 10) {
